@@ -109,6 +109,11 @@ Section Bridge.
 
   Theorem xexec_main_agree : forall fuel x, agree (xexec_main A p false fuel x) (xexec_main A p true fuel x).
   Proof.
-    intros fuel x. unfold xexec_main. destruct (rd1 (p_funs p) 0) as [f|]; [|right; reflexivity]. apply xrun_agree.
+    intros fuel x. unfold xexec_main. destruct (rd1 (p_funs p) 0) as [f|]; [|right; reflexivity].
+    match goal with |- agree (match ?o1 with _ => _ end) (match ?o2 with _ => _ end) =>
+      destruct (xrun_agree fuel 0 None 1 0 (set_core x (mkMach (m_stack (x_core x)) (m_globals (x_core x)) 0 (repeat 0%Z (nn (f_ssize f))))) fl0)
+        as [(d & E & Hd)|E] end.
+    - rewrite E. left. exists d. auto.
+    - rewrite E. right. reflexivity.
   Qed.
 End Bridge.
